@@ -121,6 +121,12 @@ def part_tcr(facts, res, fields, fi):
                 t = st.mem[TIMER_ROOT]
                 res.evaluations += 1
                 for fld, bit, what in (("is_allowed_cmib", 7, "CMIEB (bit 7)"), ("is_allowed_cmia", 6, "CMIEA (bit 6)"), ("is_allowed_ovi", 5, "OVIE (bit 5)")):
+                    if fld not in fi:
+                        # the enables are not kept in the three flags this rule knows: how TCR's enable bits reach the tick is not followed here
+                        msg_ = "the timer does not keep the interrupt enable %s as a field: the enable rules are not decidable on this tree" % fld
+                        if msg_ not in res.errors:
+                            res.errors.append(msg_)
+                        continue
                     v = t.fields[fi[fld]]
                     d = differs(v.bits, (tcr[bit],), care) if isinstance(v, Int) else care
                     res.ob(d == 0)
@@ -308,7 +314,8 @@ def part_timer(facts, res, fields, fi):
                         cur_ = st.mem.get(key_)
                         if key_ != root and isinstance(cur_, Int):
                             snap["entry_locals"][l_] = cur_.bits
-                            st.mem[key_] = Int(bv.seq_bv("carried_%d" % l_, len(cur_.bits)))
+                            # byte / word sized carried values (cached registers, event masks) share the interleaved order of the register blocks they are compared with
+                            st.mem[key_] = Int(bv.data_bv("carried_%d" % l_, len(cur_.bits)) if len(cur_.bits) <= 8 else bv.seq_bv("carried_%d" % l_, len(cur_.bits)))
                             snap["carried_vars"][l_] = st.mem[key_].bits
                     st.eff = ()
                     return "continue"
